@@ -1,4 +1,4 @@
-import RsslVerif.Model.OverloadT
+import RsslVerif.Model.OverloadSeq
 import RsslVerif.Driver.Util
 /-! Line-protocol front end of the C16 model (`C16.resolve`, `C16.conv`); formats are described in
 `harness/src/c16.rs`. -/
@@ -144,12 +144,9 @@ def showSelected (cands : List TCand) (explicit : List TArg) (a : List ETy) (id 
       | none => "model-internal-mismatch"
   | none => "model-internal-mismatch"
 
-def handleResolve (cs az opts : String) : String :=
-  match sequenceOpt ((if cs.isEmpty then [] else cs.splitOn ";").map parseTCand),
-        sequenceOpt ((if az.isEmpty then [] else az.splitOn ",").map parseETy),
-        parseExplicit opts with
-  | some cands, some a, some explicit =>
-    -- the literal transcription answers; the form the theorems are about must agree (Thm.C16.resolveGLazy_eq_resolveG)
+/-- the answer for one call that sees `cands` (the literal transcription answers; the forms the theorems are about
+    must agree) -/
+def callString (cands : List TCand) (explicit : List TArg) (a : List ETy) : String :=
     -- outside the protocol's type language (an array of a non-scalar)
     let unsupported := cands.any fun c =>
       a.length ≤ c.params.length && c.nonDefault ≤ a.length &&
@@ -171,12 +168,83 @@ def handleResolve (cs az opts : String) : String :=
     | .unmatched => showOutcome .unmatched
     -- a selected id without viable casts contradicts `Thm.C16.selectedG_is_viable`
     | .panic => if o == .panic then showOutcome .panic else "model-internal-mismatch"
+
+def handleResolve (cs az opts : String) : String :=
+  match sequenceOpt ((if cs.isEmpty then [] else cs.splitOn ";").map parseTCand),
+        sequenceOpt ((if az.isEmpty then [] else az.splitOn ",").map parseETy),
+        parseExplicit opts with
+  | some cands, some a, some explicit => callString cands explicit a
   | _, _, _ => "bad-request"
+
+def parseArgs (az : String) : Option (List ETy) :=
+  sequenceOpt ((if az.isEmpty then [] else az.splitOn ",").map parseETy)
+
+/-- one item of a `C16.seq` request (formats in harness/src/c16.rs) -/
+def parseItem (s : String) : Option SeqItem :=
+  match s.splitOn "~" with
+  | ["d", sc, c] => do pure (.decl (← sc.toNat?) (← parseTCand c))
+  | ["r", id] => id.toNat?.map .define
+  | ["c", m, az, ts] => do
+    let x ← if ts.isEmpty then some [] else sequenceOpt ((ts.splitOn "+").map parseTArg)
+    pure (.site (← m.toNat?) x (← parseArgs az))
+  | ["h", j, m, az] => do pure (.helper (← j.toNat?) (← m.toNat?) (← parseArgs az))
+  -- the call stands in a method of a struct template instead of a function template: the same for the model
+  | ["s", j, m, az] => do pure (.helper (← j.toNat?) (← m.toNat?) (← parseArgs az))
+  | ["t", j, "i"] => j.toNat?.map (.trigger · 0)
+  | ["t", j, "f"] => j.toNat?.map (.trigger · 1)
+  | _ => none
+
+def parseSeqPath (s : String) : Option SeqPath :=
+  if s.isEmpty then some .free else if s == "P=M" || s == "P=U" then some .method
+  else if s.startsWith "P=A." then some .intrinsic else none
+
+/-- `runSeq` with the answers as the protocol prints them: the state machine of `Model.OverloadSeq` decides what each
+    call sees and whether an instance is built (`runSeq`); the text of a verdict is `callString` on that visible list -/
+def seqStrings (p : SeqPath) (structHelpers : List Nat) (st : SeqState) : List SeqItem → List String
+  | [] => []
+  | i :: is =>
+    let (st', o) := seqStep p st i
+    let here : List String :=
+      match o, i with
+      | none, _ => []
+      | some .noname, _ => ["noname"]
+      | some .cached, _ => ["="]
+      | some (.verdict _), .site m x a => [match st.visible p m with | some v => callString v x a | none => "model-internal-mismatch"]
+      | some (.verdict _), .trigger j _ =>
+        [match lookupHelper j st.helpers with
+         | some (m, a) => (match st.visible p m with | some v => callString v [] a | none => "model-internal-mismatch")
+         | none => "model-internal-mismatch"]
+      | some (.verdict _), _ => ["model-internal-mismatch"]
+    -- a call refused inside a method body of a struct template is reported at the use of the template, without the reason
+    let here := match i with
+      | .trigger j _ =>
+        if structHelpers.contains j then here.map fun s => if s.startsWith "sel " || s == "=" || s.startsWith "unsupported" then s else "rej"
+        else here
+      | _ => here
+    here ++ seqStrings p structHelpers st' is
+
+def handleSeq (body opts : String) : String :=
+  match sequenceOpt ((body.splitOn "|").map parseItem), parseSeqPath opts with
+  | some items, some p =>
+    let structHelpers := (body.splitOn "|").filterMap fun s =>
+      match s.splitOn "~" with | ["s", j, _, _] => j.toNat? | _ => none
+    let out := seqStrings p structHelpers (SeqState.init p items) items
+    -- as many answers as `runSeq` has observations
+    -- the walk that carries the instantiation registry from call to call shows the same (Thm.C16.registry_is_transparent)
+    let ids := (allDeclared items).map (·.id)
+    if ids.eraseDups.length == ids.length && runSeqR p items != runSeq p items then "model-internal-mismatch"
+    else if out.length != (runSeq p items).length then "model-internal-mismatch"
+    else match out.find? (·.startsWith "unsupported") with
+      | some u => u
+      | none => " | ".intercalate out
+  | _, _ => "bad-request"
 
 def handle (op : String) (args : List String) : String :=
   match op, args with
   | "C16.resolve", [cs, az, opts] => handleResolve cs az opts
   | "C16.resolve", [cs, az] => handleResolve cs az ""
+  | "C16.seq", [body, opts] => handleSeq body opts
+  | "C16.seq", [body] => handleSeq body ""
   | "C16.conv", [src, dsts] =>
     match parseETy src, sequenceOpt ((dsts.splitOn " ").map parseETy) with
     | some s, some ds => " ".intercalate (ds.map (convCell s))
